@@ -1225,6 +1225,17 @@ def judge_bs(chk, case, rep, sim, circuit, u, record):
         sp = py_term_amps(u, m, st)
         record("tagged-evolve", f"Simulator.evolve({bs}) amplitude of {d[0]} = {d[1]:.9g}, product of group "
                f"amplitudes {d[2]:.9g}", cmp_amps(sp, ex_amp, 1e-7) is None, False)
+    # the same at the DEFAULT precision: no threshold applies to probs / evolve of one Fock state
+    simd = make_sim(case["engine"], circuit, None)
+    d = cmp_dist(bsd_to_dict(simd.probs(build_bs(st))), exact, DEFAULT_PREC)
+    if d:
+        record("tagged-probs-default-precision", f"default precision: Simulator.probs({bs})[{d[0]}] = {d[1]!r}, "
+               f"convolution of the groups gives {d[2]!r} (differs by more than the precision)", spec_ok, prop_conv())
+    d = cmp_amps(sv_to_dict(simd.evolve(build_bs(st))), ex_amp, DEFAULT_PREC, extra=loss, slack=slack)
+    if d:
+        record("tagged-evolve-default-precision", f"default precision: Simulator.evolve({bs}) amplitude of {d[0]} = "
+               f"{d[1]:.9g}, product of group amplitudes {d[2]:.9g} (differs by more than the precision)",
+               cmp_amps(py_term_amps(u, m, st), ex_amp, 1e-7) is None, False)
     # probability for ALL outputs
     for t, p in rep["probability"]:
         o = float(sim.probability(build_bs(st), pcvl.BasicState(t)))
@@ -1282,17 +1293,18 @@ def judge_sv(chk, case, rep, sim, circuit, u, record):
     spec_ok = cmp_amps(spec_amp, ex_amp, 1e-7) is None
     exact = exact_dist(rep["probs"])
 
-    def prop_linear():
+    def prop_linear(prec=0, tol=1e-7):
         """the property on the real code: evolve(∑ c_k s_k) = ∑ c_k evolve(s_k)"""
-        s2 = make_sim(case["engine"], circuit, 0)
+        s2 = make_sim(case["engine"], circuit, prec)
         cs = [cq(t["coef"]) * math.sqrt(term_scale(t["state"])) for t in terms]
         nrm = math.sqrt(sum(abs(c) ** 2 for c in cs))
         acc = {}
         for c, t in zip(cs, terms):
             for k, a in sv_to_dict(s2.evolve(build_bs(t["state"]))).items():
                 acc[k] = acc.get(k, 0j) + c / nrm * a
-        whole = sv_to_dict(make_sim(case["engine"], circuit, 0).evolve(build_sv(terms)))
-        return cmp_amps(whole, acc, 1e-7) is not None
+        whole = sv_to_dict(make_sim(case["engine"], circuit, prec).evolve(build_sv(terms)))
+        lo, _, sl = loss_profile(u, m, terms)
+        return cmp_amps(whole, acc, tol, extra=lo, slack=sl) is not None
 
     sv = build_sv(terms)
     if len(sv) != len(terms):
@@ -1331,6 +1343,22 @@ def judge_sv(chk, case, rep, sim, circuit, u, record):
     if d:
         record("svd-generic-single", f"probs_svd({{{sv}: 1}})[{d[0]}] = {d[1]!r}, expected {d[2]!r}", spec_ok,
                prop_linear())
+    # the same requests at the DEFAULT precision (1e-6): evolve / probs of one state vector apply no threshold in the
+    # code, and "up to the configured precision" permits 1e-6 at most — in particular a term may not be neglected
+    # because its squared coefficient is small (its contribution to an amplitude is c·a, not |c|²)
+    chk.branch("sv-default-precision")
+    simd = make_sim(case["engine"], circuit, None)
+    evd = sv_to_dict(simd.evolve(build_sv(terms)))
+    d = cmp_amps(evd, ex_amp, DEFAULT_PREC, extra=loss, slack=slack)
+    if d:
+        record("evolve-linear-default-precision", f"default precision: Simulator.evolve({sv}) amplitude of {d[0]} = "
+               f"{d[1]:.9g}, the superposition of the evolved terms has {d[2]:.9g} (differs by more than the precision)",
+               spec_ok, prop_linear(None, DEFAULT_PREC))
+    obsd = bsd_to_dict(simd.probs(build_sv(terms)))
+    d = cmp_dist(obsd, exact, DEFAULT_PREC, extra=ploc, slack=slack)
+    if d:
+        record("sv-probs-default-precision", f"default precision: Simulator.probs({sv})[{d[0]}] = {d[1]!r}, expected "
+               f"{d[2]!r} (differs by more than the precision)", spec_ok, prop_linear(None, DEFAULT_PREC))
     # one long-lived simulator: other coefficients on the same basis states, then the first input again — the answers
     # must be those of a fresh simulator (the cache of evolved groups is shared between the calls)
     alt = []
@@ -1837,7 +1865,7 @@ def run(chk: core.Check):
                              "session-dm-same-basis", "session-dm-new-support",
                              "gen:svd-sector-is-member", "gen:svd-sector-twice", "gen:svd-shared-basis-states",
                              "gen:session-dm-new-support",
-                             "sv-weak-term", "svd-weak-term", "dm-weak-term", "dm-weak-coherent-term", "dm-weak-member",
+                             "sv-default-precision", "sv-weak-term", "svd-weak-term", "dm-weak-term", "dm-weak-coherent-term", "dm-weak-member",
                              "gen:sv-weak-term", "gen:svd-weak-term", "gen:dm-weak-coherent-term", "gen:dm-weak-member",
                              "pa-zero", "pa-nonzero", "rejected"]
     rng = chk.rng
